@@ -22,8 +22,20 @@ struct Counting;
 static MAX_REQ: AtomicUsize = AtomicUsize::new(0);
 static SUM_REQ: AtomicUsize = AtomicUsize::new(0);
 
+/// Development aid: `VERIF_ALLOC_TRACE=<bytes>` prints a backtrace for every request at least that large.
+static TRACE_AT: AtomicUsize = AtomicUsize::new(usize::MAX);
+static IN_TRACE: std::sync::atomic::AtomicBool = std::sync::atomic::AtomicBool::new(false);
+
+fn trace_big(size: usize) {
+    if size >= TRACE_AT.load(Relaxed) && !IN_TRACE.swap(true, Relaxed) {
+        eprintln!("allocation request of {size} bytes at\n{}", std::backtrace::Backtrace::force_capture());
+        IN_TRACE.store(false, Relaxed);
+    }
+}
+
 unsafe impl GlobalAlloc for Counting {
     unsafe fn alloc(&self, l: Layout) -> *mut u8 {
+        trace_big(l.size());
         MAX_REQ.fetch_max(l.size(), Relaxed);
         SUM_REQ.fetch_add(l.size(), Relaxed);
         unsafe { System.alloc(l) }
@@ -34,6 +46,7 @@ unsafe impl GlobalAlloc for Counting {
         unsafe { System.alloc_zeroed(l) }
     }
     unsafe fn realloc(&self, p: *mut u8, l: Layout, new_size: usize) -> *mut u8 {
+        trace_big(new_size);
         MAX_REQ.fetch_max(new_size, Relaxed);
         SUM_REQ.fetch_add(new_size.saturating_sub(l.size()), Relaxed);
         unsafe { System.realloc(p, l, new_size) }
@@ -75,7 +88,9 @@ fn now_ms() -> u64 {
     CLOCK.with(|c| c.borrow().map(|t| t.elapsed().as_millis() as u64 + 1).unwrap_or(0))
 }
 
-const MAX_SINGLE: usize = 8 << 20;
+// (largest request seen on the unchanged tree while serving: ~230 KB, the per-client table of
+// unacknowledged mutate messages of a client that never acknowledges)
+const MAX_SINGLE: usize = 1 << 20;
 const MAX_TOTAL: usize = 32 << 20;
 
 #[derive(Component, Serialize, Deserialize, Clone, PartialEq, Debug)]
@@ -156,6 +171,8 @@ struct World6 {
     max_single_seen: usize,
     convergence_checks: u64,
     legit_checks: u64,
+    retention_checks: u64,
+    lonely_floods: u64,
     frames: u64,
     /// a panic unwound through App::update: the world is poisoned, nothing more is fed
     dead: bool,
@@ -196,6 +213,8 @@ impl World6 {
             max_single_seen: 0,
             convergence_checks: 0,
             legit_checks: 0,
+            retention_checks: 0,
+            lonely_floods: 0,
             frames: 0,
             dead: false,
             server_only,
@@ -272,6 +291,7 @@ impl World6 {
         }
         let sender = if sender_auth { self.authd } else { self.unauth };
         let mut total_len = 0;
+        let mut held: Vec<(usize, Bytes)> = vec![];
         for (ch, bytes) in batch {
             self.inputs += 1;
             total_len += bytes.len();
@@ -279,7 +299,9 @@ impl World6 {
                 println!("input: sender_authorized={sender_auth} channel={ch} bytes={bytes:02x?}");
                 let _ = std::io::stdout().flush();
             }
-            self.server.world_mut().resource_mut::<RepliconServer>().insert_received(sender, *ch, Bytes::copy_from_slice(bytes));
+            let b = Bytes::copy_from_slice(bytes);
+            held.push((*ch, b.clone()));
+            self.server.world_mut().resource_mut::<RepliconServer>().insert_received(sender, *ch, b);
         }
         let mut legit_seq = None;
         if legit {
@@ -309,6 +331,15 @@ impl World6 {
             self.errs.push(format!("server requested a single allocation of {max} bytes ({sum} bytes in total) while processing {what}"));
         }
         if ok {
+            // "discarded": once the frame that processed it is over, the server holds no reference to
+            // the message any more (our clone is the only one left)
+            for (ch, b) in &held {
+                self.retention_checks += 1;
+                if !b.is_empty() && !b.is_unique() {
+                    self.errs.push(format!("the {} byte message {:02x?} on channel {ch} is still held by the server after the frame that processed {what}", b.len(), &b[..b.len().min(24)]));
+                    break;
+                }
+            }
             if let Some(seq) = legit_seq {
                 self.legit_checks += 1;
                 let ge = self.good_ent;
@@ -363,6 +394,106 @@ impl World6 {
             self.errs.push(format!("after {after}: event of the well-behaved client no longer reaches the server"));
         }
         // the server must not have started sending replication to the unauthorized client
+    }
+}
+
+/// A freshly started server whose only connections are unauthorized ones: they flood every channel
+/// for a while; nothing may be kept, and a well-behaved client that joins afterwards is served.
+fn lonely_flood(w: &mut World6, r: &mut Rng) {
+    if w.dead || w.server_only || !w.errs.is_empty() {
+        return;
+    }
+    w.lonely_floods += 1;
+    let auth = w.auth;
+    let mut server = mk(auth);
+    server.world_mut().resource_mut::<RepliconServer>().set_running(true);
+    let probe = server.world_mut().spawn((Replicated, Hp(7))).id();
+    let hostile: Vec<Entity> = (0..1 + r.below(2)).map(|_| server.world_mut().spawn(ConnectedClient { max_size: 1200 }).id()).collect();
+    let nch = w.nch;
+    let frames = 20 + r.below(60);
+    let mut all_held: Vec<(usize, usize, Bytes)> = vec![];
+    for f in 0..frames {
+        for _ in 0..r.below(5) {
+            let ch = if r.below(2) == 0 { 0 } else { r.below(nch) };
+            let len = 1 + r.below(64);
+            let m: Vec<u8> = if ch == 0 && r.below(2) == 0 {
+                (0..len / 2 + 1).flat_map(|_| (r.next() as u16).to_le_bytes()).collect()
+            } else {
+                (0..len).map(|_| hostile_byte(r)).collect()
+            };
+            let b = Bytes::from(m);
+            all_held.push((f, ch, b.clone()));
+            w.inputs += 1;
+            let h = hostile[r.below(hostile.len())];
+            server.world_mut().resource_mut::<RepliconServer>().insert_received(h, ch, b);
+        }
+        w.frames += 1;
+        MAX_REQ.store(0, Relaxed);
+        FRAME_STARTED_MS.store(now_ms(), Relaxed);
+        let res = catch_unwind(AssertUnwindSafe(|| server.update()));
+        FRAME_STARTED_MS.store(0, Relaxed);
+        if res.is_err() {
+            w.errs.push(format!("server with only unauthorized connections panicked in frame {f} of a flood: {}", take_panic().unwrap_or_default().lines().next().unwrap_or("")));
+            return;
+        }
+        let max = MAX_REQ.load(Relaxed);
+        w.max_single_seen = w.max_single_seen.max(max);
+        if max >= MAX_SINGLE {
+            w.errs.push(format!("server with only unauthorized connections requested a single allocation of {max} bytes in frame {f} of a flood of messages <= 130 bytes"));
+            return;
+        }
+        server.world_mut().resource_mut::<RepliconServer>().drain_sent().for_each(drop);
+        for (f0, ch, b) in &all_held {
+            w.retention_checks += 1;
+            if !b.is_unique() {
+                w.errs.push(format!(
+                    "server with only unauthorized connections: the {} byte message {:02x?} received on channel {ch} in frame {f0} is still held after frame {f} ({} message(s) received so far)",
+                    b.len(), &b[..b.len().min(24)], all_held.len()
+                ));
+                return;
+            }
+        }
+        all_held.clear();
+    }
+    // a well-behaved client joins
+    let ge = server.world_mut().spawn(ConnectedClient { max_size: 1200 }).id();
+    if auth == AuthMethod::Custom {
+        server.world_mut().entity_mut(ge).insert(AuthorizedClient);
+    }
+    let mut good = mk(auth);
+    good.world_mut().resource_mut::<RepliconClient>().set_status(RepliconClientStatus::Connected);
+    let mut got = None;
+    for _ in 0..10 {
+        good.update();
+        let msgs: Vec<_> = good.world_mut().resource_mut::<RepliconClient>().drain_sent().collect();
+        for (ch, m) in msgs {
+            server.world_mut().resource_mut::<RepliconServer>().insert_received(ge, ch, m);
+        }
+        w.frames += 1;
+        if catch_unwind(AssertUnwindSafe(|| server.update())).is_err() {
+            w.errs.push(format!("server panicked while a well-behaved client joined after a flood: {}", take_panic().unwrap_or_default().lines().next().unwrap_or("")));
+            return;
+        }
+        let msgs: Vec<_> = server.world_mut().resource_mut::<RepliconServer>().drain_sent().collect();
+        for (e, ch, m) in msgs {
+            if e == ge {
+                good.world_mut().resource_mut::<RepliconClient>().insert_received(ch, m);
+            }
+        }
+        good.update();
+        let msgs: Vec<_> = good.world_mut().resource_mut::<RepliconClient>().drain_sent().collect();
+        for (ch, m) in msgs {
+            server.world_mut().resource_mut::<RepliconServer>().insert_received(ge, ch, m);
+        }
+        let map = good.world().resource::<ServerEntityMap>();
+        got = map.to_client().get(&probe).and_then(|c| good.world().get::<Hp>(*c)).map(|h| h.0);
+        if got == Some(7) {
+            break;
+        }
+    }
+    w.convergence_checks += 1;
+    if got != Some(7) {
+        w.errs.push(format!("after a flood from unauthorized connections a well-behaved client that joins sees Hp={got:?}, the server has 7"));
     }
 }
 
@@ -655,6 +786,9 @@ fn run_seed(seed: u64, thorough: bool, w: &mut World6) -> (&'static str, String)
         }
     };
     w.check_service(name);
+    if matches!(kind, 2 | 6 | 7) {
+        lonely_flood(w, &mut r);
+    }
     (name, desc)
 }
 
@@ -667,6 +801,9 @@ fn auth_for(seed: u64) -> AuthMethod {
 }
 
 fn main() {
+    if let Some(n) = std::env::var("VERIF_ALLOC_TRACE").ok().and_then(|v| v.parse().ok()) {
+        TRACE_AT.store(n, Relaxed);
+    }
     let args = Args::from_env();
     quiet_panics();
     if !args.flag("--server-only") {
@@ -705,7 +842,7 @@ fn main() {
         let _ = max_inputs;
         let w = &mut world.as_mut().unwrap().1;
         w.max_inputs = w.inputs.saturating_add(per_seed);
-        let before = (w.inputs, w.frames, w.convergence_checks, w.legit_checks);
+        let before = (w.inputs, w.frames, w.convergence_checks, w.legit_checks, w.retention_checks, w.lonely_floods);
         let (kind, desc) = run_seed(seed, thorough, w);
         res.runs += w.inputs - before.0;
         *res.configs.entry(format!("{kind}/{:?}", w.auth)).or_default() += 1;
@@ -713,6 +850,8 @@ fn main() {
         res.obs.add("server_frames", w.frames - before.1);
         res.obs.add("service_checks_with_wellbehaved_client", w.convergence_checks - before.2);
         res.obs.add("same_frame_legitimate_event_checks", w.legit_checks - before.3);
+        res.obs.add("message_discarded_checks", w.retention_checks - before.4);
+        res.obs.add("floods_with_only_unauthorized_connections", w.lonely_floods - before.5);
         res.obs.max("max_single_allocation_request_bytes", w.max_single_seen as u64);
         if kind == "exhaustive-short" {
             res.obs.inc("exhaustive_blocks");
@@ -733,6 +872,6 @@ fn main() {
     let _ = std::fs::remove_file(&progress);
     let mut j = res.to_json();
     j["harness_errors"] = json!([]);
-    j["rule"] = json!("evaluations = individual hostile messages, each followed by one server frame under catch_unwind with the counting allocator armed; cases come in blocks per seed: exhaustive (all byte strings of length 1..2 [quick] / 1..3 [thorough] with a fixed first byte, on one channel, from one sender; blocks enumerate channel x sender x first byte), acknowledgement lists, structure-aware event / mapped-event / trigger encodings with inflated lengths and boundary entity bits, random varint-heavy strings, batches interleaved with legitimate traffic and other clients connecting/leaving; every block ends with a service check through a well-behaved client; distinct_nontrivial = distinct blocks");
+    j["rule"] = json!("evaluations = individual hostile messages, each followed by one server frame under catch_unwind with the counting allocator armed; cases come in blocks per seed: exhaustive (all byte strings of length 1..2 [quick] / 1..3 [thorough] with a fixed first byte, on one channel, from one sender; blocks enumerate channel x sender x first byte), acknowledgement lists, structure-aware event / mapped-event / trigger encodings with inflated lengths and boundary entity bits, random varint-heavy strings, batches interleaved with legitimate traffic and other clients connecting/leaving; every block ends with a service check through a well-behaved client; after every server frame each hostile message must have been released by the server (Bytes::is_unique on a retained clone); blocks of kind acks/random/batched additionally start a fresh server whose only connections are unauthorized, flood it for 20..80 frames (same monitors) and then let a well-behaved client join; distinct_nontrivial = distinct blocks");
     write_json(&out, &j);
 }
